@@ -300,6 +300,9 @@ Observe(o, e) ==
                                     !.viol = @ \cup Flag("C07_CertValidated", e.ok => o.cfg.hs = "ok")]
     [] e.ev = "setdl"  -> [o EXCEPT !.armed = e.armed]
     [] e.ev = "wfail"  -> [o EXCEPT !.srvGone = TRUE]      \* the transport broke under a client write
+    \* the call panicked inside the library: whatever the property says about its result does not hold
+    [] e.ev = "panic" -> [o EXCEPT !.viol = @ \cup {"C03_CallPanicked", "C04_CallPanicked", "C07_CallPanicked", "C16_CallPanicked",
+                                                   "C17_CallPanicked", "C19_CallPanicked", "C20_CallPanicked"}]
     [] e.ev = "setpolicy" -> [o EXCEPT !.cfg.policy = e.policy]   \* Client.SetTLSPolicy between two calls
     [] e.ev = "tlshello" -> o                              \* a cleartext server saw a TLS ClientHello: nothing in clear
     [] e.ev = "xclose" -> [o EXCEPT !.srvGone = TRUE]      \* another goroutine closed the client
